@@ -72,6 +72,9 @@ Next == \/ \E v \in Vars, val \in Vals, s \in BOOLEAN : WriteBegin(v, val, s)
         \/ \E v \in Vars : Read(v, v.attrs)
 Spec == Init /\ [][Next]_vars
 
+(* every API write that has begun runs to its end (its three file-system calls are issued and it returns) *)
+CallsComplete == [](call # Idle => <>(call = Idle))
+
 (* ---- C12: each variable is a register ---- *)
 Register == \A p \in Paths : files[p].tail = "none"
 ReadsLastWrite == (last.op = "read" /\ call = Idle) =>
